@@ -129,6 +129,7 @@ type writerPlan struct {
 func runWriterPlan(p *writerPlan, conc int, o *Obs, yield bool) {
 	sinks := []*schedSink{{failAt: p.FailAt, partial: p.Partial, yield: yield}}
 	var handled []string
+	var scratch []byte
 	o.AddState(func() uint64 {
 		h := uint64(len(handled))
 		for _, s := range sinks {
@@ -149,6 +150,17 @@ func runWriterPlan(p *writerPlan, conc int, o *Obs, yield bool) {
 		case "write":
 			n, err := w.Write(st.Data)
 			o.logf("Write=%d,%v", n, err != nil)
+		case "write-reuse":
+			// the caller's buffer is refilled right after Write returned (Write must not retain it)
+			if scratch == nil {
+				scratch = make([]byte, len(st.Data))
+			}
+			copy(scratch, st.Data)
+			n, err := w.Write(scratch[:len(st.Data)])
+			o.logf("Write=%d,%v", n, err != nil)
+			for i := range scratch {
+				scratch[i] = 0xEE
+			}
 		case "flush":
 			err := w.Flush()
 			o.logf("Flush=%v", err != nil)
@@ -278,6 +290,7 @@ type readerPlan struct {
 	FailAt  int
 	Chunk   int
 	WantErr string // "" clean; "any" some error; else errors.Is class name
+	SinkFail bool  // WriteTo into a sink that fails at its first call (then Reset and reuse)
 	Partial int    // >0: Reset after this many Read calls instead of reading the first stream to its end
 	Reuse   []byte // second frame read after Reset (nil: none)
 	Reuse2  []byte // its content
@@ -337,7 +350,10 @@ func runReaderPlan(p *readerPlan, o *Obs) {
 		}
 		o.logf("Read never ends")
 	}
-	if p.Partial > 0 {
+	if p.SinkFail {
+		n, err := r.WriteTo(&schedSink{failAt: 1})
+		o.logf("WriteTo=%d,%s", n, errClass(err))
+	} else if p.Partial > 0 {
 		buf := make([]byte, p.BufSize)
 		for i := 0; i < p.Partial; i++ {
 			n, err := r.Read(buf)
@@ -407,6 +423,21 @@ func readerScenario(p *readerPlan) *Scenario {
 			if p.Reuse != nil {
 				want = append(append(append([]byte{}, p.Content...), '|'), p.Reuse2...)
 			}
+			if p.SinkFail {
+				if len(o.Log) == 0 || !strings.Contains(o.Log[0], "injected") {
+					return "WriteTo does not return the sink's error", fmt.Sprint(o.Log)
+				}
+				i := bytes.IndexByte(o.Out, '|')
+				if i < 0 || !bytes.Equal(o.Out[i+1:], p.Reuse2) {
+					return "after a failed WriteTo and a Reset the next stream decodes to other bytes", ""
+				}
+				for _, l := range o.Log[1:] {
+					if !(strings.HasSuffix(l, "EOF") || strings.HasSuffix(l, ",nil")) || strings.Contains(l, "unexpected") || strings.Contains(l, "wrapped") {
+						return "after a failed WriteTo and a Reset the next stream does not end cleanly", fmt.Sprint(o.Log)
+					}
+				}
+				return "", ""
+			}
 			if p.Partial > 0 {
 				// the first stream is abandoned after Partial reads: whatever was delivered must be
 				// a prefix of it, and the second stream must be complete and clean
@@ -474,6 +505,14 @@ func c08Scenarios(thorough bool) []*Scenario {
 	W(&writerPlan{Name: "W3", Conc: 2, Steps: []writerStep{wr(big), cl}})
 	W(&writerPlan{Name: "W4", Conc: 2, Steps: []writerStep{{Op: "readfrom", Data: big2}, cl}})
 	W(&writerPlan{Name: "W7", Conc: 2, Handler: true, Opts: []lz4.Option{lz4.BlockChecksumOption(true)}, Steps: []writerStep{wr(a), fl, wr(b), fl, wr(cc), cl}})
+	blockA, blockB := make([]byte, 65536), make([]byte, 65536)
+	for i := range blockA {
+		blockA[i], blockB[i] = byte(i%7), byte(i%11+100)
+	}
+	rawData := make([]byte, 2*65536+1)
+	lcgFill(rawData, 77)
+	W(&writerPlan{Name: "W9", Conc: 2, Steps: []writerStep{wr(rawData), cl}})
+	W(&writerPlan{Name: "W8", Conc: 2, Steps: []writerStep{{Op: "write-reuse", Data: blockA}, {Op: "write-reuse", Data: blockB}, cl}})
 	W(&writerPlan{Name: "W6a", Conc: 2, Steps: []writerStep{wr(a), cl, rs, wr(b), cl}})
 	W(&writerPlan{Name: "W6b", Conc: 2, Steps: []writerStep{wr(a), cl, cl}})
 	W(&writerPlan{Name: "W6c", Conc: 2, Steps: []writerStep{wr(a), fl, rs, wr(b), cl}})
@@ -548,6 +587,7 @@ func c08Scenarios(thorough bool) []*Scenario {
 	f2, c2 := smallFrame(false, true, 2, false)
 	R(&readerPlan{Name: "R6", Conc: 2, Frame: f3, Content: c3, BufSize: 64, Reuse: f2, Reuse2: c2})
 	// R7: Reset in the middle of a stream
+	R(&readerPlan{Name: "R8", Conc: 2, Frame: f3, Content: c3, BufSize: 64, SinkFail: true, Reuse: f2, Reuse2: c2})
 	R(&readerPlan{Name: "R7", Conc: 2, Frame: f3, Content: c3, BufSize: 5, Partial: 1, Reuse: f2, Reuse2: c2})
 	return scs
 }
@@ -619,7 +659,7 @@ func init() {
 				switch {
 				case sc.Name == "R7":
 					b -= 2 // the two-stream mid-Reset scenario is the largest
-				case strings.HasPrefix(sc.Name, "W5"), strings.HasPrefix(sc.Name, "R3"), strings.HasPrefix(sc.Name, "R4"), strings.HasPrefix(sc.Name, "R5"), sc.Name == "R6":
+				case strings.HasPrefix(sc.Name, "W5"), strings.HasPrefix(sc.Name, "R3"), strings.HasPrefix(sc.Name, "R4"), strings.HasPrefix(sc.Name, "R5"), sc.Name == "R6", sc.Name == "R8":
 					b-- // fault families (many scenarios) and the two-frame reuse scenario
 				}
 				if b < 0 {
